@@ -25,7 +25,7 @@ pub struct Config {
     pub rmatch_map: bool,
     /// R-dropstmt: statements (by normalized text prefix) removed from a fragment; each removal is recorded
     pub drop_stmts: Vec<String>,
-    /// R-for: `for P in E { B }` -> `{ let mut it = E; loop { match it.next() { Some(P) => { B } None => { break; } } } }`
+    /// R-for: `for P in E { B }` -> `{ let mut it = E; let ghost it0 = it; loop { match it.next() { Some(P) => { B } None => { break; } } } }`
     pub rfor: bool,
     pub state_methods: Vec<String>,
     pub state_calls: Vec<String>,
@@ -605,7 +605,7 @@ impl<'a, 'ast> Visit<'ast> for Rewriter<'a> {
             let er = self.r(l.expr.span());
             self.edits.replace(
                 (for_start, brace_open.0),
-                vec![Piece::Lit("{ let mut __vx_it = ".into()), Piece::Src(er.0, er.1), Piece::Lit("; loop ".into())],
+                vec![Piece::Lit("{ let mut __vx_it = ".into()), Piece::Src(er.0, er.1), Piece::Lit("; let ghost __vx_it0 = __vx_it; loop ".into())],
                 "R-for",
             );
             self.edits.replace(
